@@ -31,8 +31,10 @@ import (
 	"fmt"
 	"os"
 	"os/exec"
+	"regexp"
 	"runtime"
 	"runtime/debug"
+	"runtime/pprof"
 	"sort"
 	"strconv"
 	"strings"
@@ -58,6 +60,7 @@ const pairPath = "gno.land/r/verif/pair"
 const realmPair = `package pair
 
 import (
+	"chain/banker"
 	"chain/runtime"
 	"strconv"
 )
@@ -78,6 +81,12 @@ func Snap() string {
 	return Vars() + " " + strconv.FormatInt(hw, 10) + " " + strconv.FormatInt(runtime.ChainHeight(), 10)
 }
 
+// Mix reads a heap object (gno objects live in the unversioned base store) and a bank balance (versioned main store)
+// that every block changes together.
+func Mix() string {
+	return strconv.Itoa(pa.v) + " " + strconv.FormatInt(banker.NewReadonlyBanker().GetCoin(address("WATCHADDR"), "ugnot"), 10)
+}
+
 func Read(cur realm) string { return Vars() }
 `
 
@@ -91,7 +100,7 @@ func coins(n int64) std.Coins { return std.Coins{std.NewCoin("ugnot", n)} }
 func spec(p types.PruneStrategy) chainx.Spec {
 	s := chainx.Spec{Keys: keys, Fund: 1_000_000_000_000, Prune: p}
 	s.GenesisTxs = []std.Tx{{
-		Msgs:       []std.Msg{chainx.AddPkg(A.Addr, pairPath, map[string]string{"pair.gno": realmPair})},
+		Msgs:       []std.Msg{chainx.AddPkg(A.Addr, pairPath, map[string]string{"pair.gno": strings.ReplaceAll(realmPair, "WATCHADDR", B.Addr.String())})},
 		Fee:        std.NewFee(100_000_000, std.NewCoin("ugnot", 1_000_000)),
 		Signatures: []std.Signature{{}},
 	}}
@@ -109,14 +118,22 @@ var (
 func goid() int64 {
 	var buf [64]byte
 	n := runtime.Stack(buf[:], false)
-	// "goroutine 123 [running]:..."
-	s := string(buf[:n])
+	s := string(buf[:n]) // "goroutine 123 [running]:..."
 	s = s[len("goroutine "):]
 	if i := strings.IndexByte(s, ' '); i > 0 {
 		s = s[:i]
 	}
 	id, _ := strconv.ParseInt(s, 10, 64)
 	return id
+}
+
+// viaLiveStore reports whether the caller was reached through the LIVE multistore's CollectingDB, i.e. through the
+// live store's shared PrefixDB, which holds a real mutex across the inner read: parking there would block the other
+// thread for real (only the legacy `.store` fallback path reads the live store from a query thread).
+func viaLiveStore() bool {
+	var buf [8192]byte
+	n := runtime.Stack(buf[:], false)
+	return strings.Contains(string(buf[:n]), "db.(*CollectingDB)")
 }
 
 func pt(op string) {
@@ -128,7 +145,10 @@ func pt(op string) {
 // ptQ: live-DB READS are scheduling points only when a query thread performs them. The query threads never write the
 // DB, so a read by the consensus thread is independent of every query-thread operation (partial-order reduction).
 func ptQ(op string, k []byte) {
-	if armed && qthreads[goid()] {
+	if !armed {
+		return
+	}
+	if qthreads[goid()] && !viaLiveStore() {
 		s := string(k)
 		if len(s) > 16 {
 			s = s[:16]
@@ -217,6 +237,7 @@ func str(s string) func(*epoch) []byte { return func(*epoch) []byte { return []b
 
 var queries = map[string]qdef{
 	"eval-vars":    {name: "eval-vars", path: "vm/qeval", data: str(pairPath + ".Vars()"), sub: "vars"},
+	"eval-mix":     {name: "eval-mix", path: "vm/qeval", data: str(pairPath + ".Mix()")},
 	"eval-snap":    {name: "eval-snap", path: "vm/qeval", data: str(pairPath + ".Snap()"), sub: "snap"},
 	"eval-vars@h":  {name: "eval-vars@h", path: "vm/qeval", data: str(pairPath + ".Vars()"), height: func(e *epoch) int64 { return e.h }, sub: "vars"},
 	"qfile-new":    {name: "qfile-new", path: "vm/qfile", data: func(e *epoch) []byte { return []byte(e.pkg(0)) }},
@@ -307,13 +328,13 @@ type scenario struct {
 }
 
 var scenarios = []scenario{
-	{name: "eval-pair-x2", prune: types.PruneNothingStrategy, qs: [][]string{{"eval-snap", "eval-vars"}}, bound: [2]int{2, 3}},
-	{name: "deploy:qfile+eval", prune: types.PruneNothingStrategy, qs: [][]string{{"qfile-new", "eval-new"}}, bound: [2]int{2, 3}},
-	{name: "store+bank+auth", prune: types.PruneNothingStrategy, qs: [][]string{{"store-acct", "balances", "account"}}, bound: [2]int{2, 3}},
-	{name: "simulate", prune: types.PruneNothingStrategy, qs: [][]string{{"simulate"}}, bound: [2]int{2, 3}},
-	{name: "explicit-heights", prune: types.PruneNothingStrategy, qs: [][]string{{"eval-vars@h", "store-acct@n"}}, bound: [2]int{2, 3}},
-	{name: "prune-everything:eval+store", prune: types.PruneEverythingStrategy, qs: [][]string{{"eval-snap", "store-acct"}}, bound: [2]int{2, 3}, pruneOK: true},
-	{name: "two-query-threads", prune: types.PruneNothingStrategy, qs: [][]string{{"eval-snap"}, {"simulate", "balances"}}, bound: [2]int{1, 2}},
+	{name: "eval-pair+cross-store", prune: types.PruneNothingStrategy, qs: [][]string{{"eval-snap", "eval-mix"}}, bound: [2]int{1, 2}},
+	{name: "deploy:qfile+eval", prune: types.PruneNothingStrategy, qs: [][]string{{"qfile-new", "eval-new"}}, bound: [2]int{1, 2}},
+	{name: "store+bank+auth", prune: types.PruneNothingStrategy, qs: [][]string{{"store-acct", "balances", "account"}}, bound: [2]int{1, 2}},
+	{name: "simulate", prune: types.PruneNothingStrategy, qs: [][]string{{"simulate"}}, bound: [2]int{1, 2}},
+	{name: "explicit-heights", prune: types.PruneNothingStrategy, qs: [][]string{{"eval-vars@h", "store-acct@n"}}, bound: [2]int{1, 2}},
+	{name: "prune-everything:eval+store", prune: types.PruneEverythingStrategy, qs: [][]string{{"eval-snap", "store-acct"}}, bound: [2]int{1, 2}, pruneOK: true},
+	{name: "two-query-threads", prune: types.PruneNothingStrategy, qs: [][]string{{"eval-snap"}, {"balances"}}, bound: [2]int{1, 2}},
 }
 
 // ---------------------------------------------------------------------------------------------
@@ -354,7 +375,7 @@ func newWorld(sc *scenario) (*world, error) {
 		return nil, err
 	}
 	// block 1 (commits the genesis state) establishes the invariant a == b == hw == height
-	txs := w.blockTxs(w.ref, &epoch{h: 0, k: 0}, 1)
+	txs := w.blockTxs(w.ref, &epoch{h: 0, k: 0}, 1, 0)
 	w.k = 1
 	for _, c := range []*chainx.Chain{w.ref, w.sut} {
 		c.BeginBlock()
@@ -369,16 +390,16 @@ func newWorld(sc *scenario) (*world, error) {
 }
 
 // blockTxs builds the two txs of the block that takes chain c (in its current state) to height nh.
-func (w *world) blockTxs(c *chainx.Chain, e *epoch, nh int64) [][]byte {
+func (w *world) blockTxs(c *chainx.Chain, e *epoch, nh int64, seqDelta int64) [][]byte {
 	i := int(nh - e.h - 1)
 	pk := e.pkg(i)
 	name := pk[strings.LastIndexByte(pk, '/')+1:]
 	t1 := c.MakeTx(keys, []std.Msg{
 		chainx.Call(A.Addr, nil, pairPath, "Bump", fmt.Sprint(nh)),
 		bank.MsgSend{FromAddress: A.Addr, ToAddress: B.Addr, Amount: coins(7)},
-	}, chainx.TxOpt{})
+	}, chainx.TxOpt{SeqDelta: seqDelta})
 	t2 := c.MakeTx(keys, []std.Msg{chainx.AddPkg(B.Addr, pk, map[string]string{
-		"a.gno": fmt.Sprintf("package %s\n\nvar N = %d\n\nfunc Get() int { return N }\n", name, nh)})}, chainx.TxOpt{})
+		"a.gno": fmt.Sprintf("package %s\n\nvar N = %d\n\nfunc Get() int { return N }\n", name, nh)})}, chainx.TxOpt{SeqDelta: seqDelta})
 	return [][]byte{amino.MustMarshal(t1), amino.MustMarshal(t2)}
 }
 
@@ -388,9 +409,13 @@ type blockRes struct {
 }
 
 type qobs struct {
-	Thread      string
-	Q           string
+	Thread string
+	Q      string
+	// Entry: latest PUBLISHED height (LastBlockHeight) when the query was issued. Exit: latest COMMITTED height when it
+	// returned = max(published height, number of block batches durably written): rootmulti.Commit makes a block
+	// durable (WriteSync) and readable (snapshot swap) a few instructions before it publishes lastCommitID.
 	Entry, Exit int64
+	ExitPub     int64
 	Ans         string
 }
 
@@ -415,23 +440,47 @@ func (w *world) qnames() []string {
 	return out
 }
 
-// prepare runs REF (outside the scheduler) through the two blocks of the epoch and records the reference answers.
+// prepare builds the tx bytes of the two blocks of the epoch (block 2's signatures use sequence+1).
 func (w *world) prepare() *prepared {
 	e := &epoch{h: w.ref.Height, k: w.k}
 	w.k++
 	simTx := w.ref.MakeTx(keys, []std.Msg{chainx.Call(Z.Addr, nil, pairPath, "Read")}, chainx.TxOpt{})
 	e.simu = amino.MustMarshal(simTx)
 	p := &prepared{e: e, refA: map[string][3]string{}}
+	for b := 0; b < 2; b++ {
+		p.txs[b] = w.blockTxs(w.ref, e, e.h+int64(b)+1, int64(b))
+	}
+	return p
+}
+
+// reference runs REF (outside the scheduler, after the scheduled execution) through the two blocks and records its
+// answers, quiescent at each height L, to the queries whose [entry, exit] interval (widened by one) contains L.
+func (w *world) reference(x *execution) {
+	p := x.p
+	e := p.e
+	need := map[string][3]bool{}
+	for _, l := range x.obs {
+		for _, o := range l {
+			n := need[o.Q]
+			for L := o.Entry - e.h; L <= o.Exit-e.h+1; L++ {
+				if L >= 0 && L <= 2 {
+					n[L] = true
+				}
+			}
+			need[o.Q] = n
+		}
+	}
 	rec := func(i int) {
-		for _, n := range w.qnames() {
-			a := p.refA[n]
-			a[i] = ask(w.ref.App, queries[n], e)
-			p.refA[n] = a
+		for _, qn := range w.qnames() {
+			if need[qn][i] {
+				a := p.refA[qn]
+				a[i] = ask(w.ref.App, queries[qn], e)
+				p.refA[qn] = a
+			}
 		}
 	}
 	rec(0)
 	for b := 0; b < 2; b++ {
-		p.txs[b] = w.blockTxs(w.ref, e, e.h+int64(b)+1)
 		w.ref.BeginBlock()
 		for _, tx := range p.txs[b] {
 			p.ref[b].Txs = append(p.ref[b].Txs, chainx.ResKey(w.ref.DeliverRaw(tx)))
@@ -440,10 +489,11 @@ func (w *world) prepare() *prepared {
 		p.ref[b].Hash = hex.EncodeToString(h)
 		rec(b + 1)
 	}
-	return p
 }
 
 type execution struct {
+	units0 int // physical write units of the SUT DB when the execution started
+	unitsN int // ... written by the execution
 	p      *prepared
 	blocks [2]blockRes
 	obs    [][]qobs // per query thread
@@ -474,68 +524,125 @@ func (w *world) querier(x *execution, i int) {
 		o := qobs{Thread: name, Q: qn}
 		o.Entry = w.sut.Base.LastBlockHeight()
 		o.Ans = ask(w.sut.App, queries[qn], x.p.e)
-		o.Exit = w.sut.Base.LastBlockHeight()
+		o.ExitPub = w.sut.Base.LastBlockHeight()
+		o.Exit = max(o.ExitPub, x.p.e.h+int64(w.sdb.DB.NumUnits()-x.units0))
 		x.obs[i] = append(x.obs[i], o)
 	}
 }
 
-// judge applies the oracles to a finished execution; returns the first violation (class, detail) and the observation key.
-func (w *world) judge(x *execution) (class, detail, obsKey string) {
+type finding struct{ class, detail string }
+
+var numRe = regexp.MustCompile(`[0-9]+`)
+
+// rel rewrites the numbers h, h+1, h+2 of an answer as H+0, H+1, H+2 (observation keys must not depend on how long the
+// chain already is).
+func rel(ans string, h int64) string {
+	return numRe.ReplaceAllStringFunc(ans, func(n string) string {
+		v, err := strconv.ParseInt(n, 10, 64)
+		if err == nil && v >= h && v <= h+2 && h > 2 {
+			return fmt.Sprintf("H+%d", v-h)
+		}
+		return n
+	})
+}
+
+func snapFields(ans string) []string {
+	if !strings.HasPrefix(ans, "OK: ") {
+		return nil
+	}
+	return strings.Fields(strings.Trim(strings.TrimPrefix(ans, "OK: "), "()\" string"))
+}
+
+// judge applies the oracles to a finished execution; returns every violation and the observation key.
+func (w *world) judge(x *execution) (fs []finding, obsKey string) {
 	var ob []string
+	h := x.p.e.h
 	for _, l := range x.obs {
 		for _, o := range l {
-			ob = append(ob, fmt.Sprintf("%s.%s[%d..%d]=%s", o.Thread, o.Q, o.Entry-x.p.e.h, o.Exit-x.p.e.h, clip(o.Ans, 70)))
+			ob = append(ob, fmt.Sprintf("%s.%s[+%d..+%d/%d]=%s", o.Thread, o.Q, o.Entry-h, o.ExitPub-h, o.Exit-h, clip(rel(o.Ans, h), 80)))
 		}
 	}
 	obsKey = strings.Join(ob, " | ")
 	if x.cPanic != "" {
-		return "panic:consensus", x.cPanic, obsKey
+		return []finding{{"panic:consensus", x.cPanic}}, obsKey
 	}
 	for b := 0; b < 2; b++ {
 		if x.blocks[b].Hash != x.p.ref[b].Hash {
-			return "apphash-differs", fmt.Sprintf("block +%d: %s with queries, %s without", b+1, x.blocks[b].Hash, x.p.ref[b].Hash), obsKey
+			fs = append(fs, finding{"apphash-differs", fmt.Sprintf("block +%d: %s with queries, %s without", b+1, x.blocks[b].Hash, x.p.ref[b].Hash)})
 		}
 		if fmt.Sprint(x.blocks[b].Txs) != fmt.Sprint(x.p.ref[b].Txs) {
-			return "txresult-differs", fmt.Sprintf("block +%d: %v with queries, %v without", b+1, x.blocks[b].Txs, x.p.ref[b].Txs), obsKey
+			fs = append(fs, finding{"txresult-differs", fmt.Sprintf("block +%d: %v with queries, %v without", b+1, x.blocks[b].Txs, x.p.ref[b].Txs)})
 		}
+	}
+	if n := x.unitsN; n != 2 && x.cPanic == "" {
+		fs = append(fs, finding{"write-units-per-block", fmt.Sprintf("2 blocks produced %d physical write units (expected one atomic batch per block)", n)})
 	}
 	for _, l := range x.obs {
 		for _, o := range l {
 			q := queries[o.Q]
-			if strings.HasPrefix(o.Ans, "PANIC:") {
-				return "panic:query:" + o.Q, o.Ans, obsKey
-			}
-			lo, hi := o.Entry-x.p.e.h, o.Exit-x.p.e.h
+			lo, hi := o.Entry-h, o.Exit-h
 			if lo < 0 || hi > 2 || lo > hi {
-				return "height-regression:" + o.Q, fmt.Sprintf("latest height %d at entry, %d at exit (epoch base %d)", o.Entry, o.Exit, x.p.e.h), obsKey
+				fs = append(fs, finding{"height-regression:" + o.Q, fmt.Sprintf("latest height %d at entry, %d at exit (epoch base %d)", o.Entry, o.Exit, h)})
+				continue
 			}
+			refs := x.p.refA[o.Q]
 			ok := false
 			var acc []string
 			for L := lo; L <= hi; L++ {
-				acc = append(acc, fmt.Sprintf("@+%d: %s", L, clip(x.p.refA[o.Q][L], 160)))
-				if x.p.refA[o.Q][L] == o.Ans {
+				acc = append(acc, fmt.Sprintf("@H+%d: %s", L, clip(rel(refs[L], h), 160)))
+				if refs[L] == o.Ans {
 					ok = true
 				}
 			}
-			if !ok && w.sc.pruneOK && strings.Contains(o.Ans, "failed to load state at height") && lo < 2 {
-				ok = true // the resolved height was pruned by a commit that landed before the view was built
+			if ok {
+				continue
 			}
-			if !ok {
-				sub := "answer-matches-no-single-height"
-				if q.sub != "" && strings.HasPrefix(o.Ans, "OK: ") {
-					// classify: torn pair / header mix
-					f := strings.Fields(strings.Trim(strings.TrimPrefix(o.Ans, "OK: "), "()\" string"))
-					if len(f) >= 2 && f[0] != f[1] {
-						sub = "torn-pair"
-					} else if len(f) >= 4 && f[2] != f[3] {
-						sub = "vm-height-differs-from-state-height"
+			if w.sc.pruneOK && hi > lo && (o.Ans == "ERR: internal error | " || strings.Contains(o.Ans, "version does not exist")) {
+				// a commit landed while the query ran and pruned the height it had resolved (the "failed to load state at
+				// height" message does not survive ABCIError, only "internal error" reaches the client)
+				continue
+			}
+			class := "mixed-heights"
+			switch {
+			case strings.HasPrefix(o.Ans, "PANIC:"):
+				class = "panic:query"
+			case strings.HasPrefix(o.Ans, "ERR:"):
+				class = "query-fails"
+			default:
+				for L := int64(0); L <= 2; L++ {
+					if refs[L] == o.Ans && L > hi {
+						class = "uncommitted-height-observed" // the answer of a height that was not yet durably written when the query returned
+					} else if refs[L] == o.Ans && L < lo {
+						class = "stale-height-observed"
 					}
 				}
-				return sub + ":" + o.Q, fmt.Sprintf("%s %s (latest height %d at entry, %d at exit) answered %q; acceptable (REF quiescent at one height between entry and exit): %v", o.Thread, o.Q, o.Entry, o.Exit, clip(o.Ans, 300), acc), obsKey
+				if f := snapFields(o.Ans); class == "mixed-heights" && q.sub != "" && len(f) >= 2 {
+					if f[0] != f[1] {
+						class = "torn-pair"
+					} else if q.sub == "snap" && len(f) == 4 {
+						// state part (a b hw) vs the height the VM reports
+						state := strings.Join(f[:3], " ")
+						for L := int64(0); L <= 2; L++ {
+							rf := snapFields(refs[L])
+							if len(rf) == 4 && strings.Join(rf[:3], " ") == state {
+								switch {
+								case L >= lo && L <= hi:
+									class = "vm-height-differs-from-state-height"
+								case L > hi:
+									class = "uncommitted-height-observed"
+								default:
+									class = "stale-height-observed"
+								}
+							}
+						}
+					}
+				}
 			}
+			fs = append(fs, finding{class + ":" + o.Q, fmt.Sprintf("scenario %q: %s %s (latest published height H+%d at entry, latest committed height H+%d at exit; H=%d) answered %q; acceptable (REF quiescent at ONE height between entry and exit): %v",
+				w.sc.name, o.Thread, o.Q, lo, hi, h, clip(rel(o.Ans, h), 300), acc)})
 		}
 	}
-	return "", "", obsKey
+	return fs, obsKey
 }
 
 // ---------------------------------------------------------------------------------------------
@@ -562,15 +669,17 @@ type jobResult struct {
 	Err        string           `json:"err,omitempty"`
 	Sample     []string         `json:"sample"`
 	OpHist     map[string]int   `json:"op_histogram"`
-	SetupS     float64          `json:"setup_s"`
+	WallS      float64          `json:"wall_s"`
 	Fatal      bool             `json:"fatal"`
+	Diverged   int              `json:"replay_divergences"`
+	DivergedAt string           `json:"first_divergence,omitempty"`
 }
 
 const horizon = 400000
 
 func (w *world) runOnce(prefix []int, trace bool) (*execution, *vs.Exec, error) {
 	p := w.prepare()
-	x := &execution{p: p, obs: make([][]qobs, len(w.sc.qs))}
+	x := &execution{p: p, obs: make([][]qobs, len(w.sc.qs)), units0: w.sdb.DB.NumUnits()}
 	body := func() {
 		for k := range qthreads {
 			delete(qthreads, k)
@@ -584,6 +693,10 @@ func (w *world) runOnce(prefix []int, trace bool) (*execution, *vs.Exec, error) 
 	}
 	ex, err := vs.RunOnce(prefix, horizon, trace, body)
 	armed = false
+	x.unitsN = w.sdb.DB.NumUnits() - x.units0
+	if err == nil && !ex.Horizon && !ex.Deadlock {
+		w.reference(x)
+	}
 	return x, ex, err
 }
 
@@ -605,30 +718,32 @@ func preemptionsBefore(x *vs.Exec, i int) int {
 	return n
 }
 
-func runJob(si, bound int, budget time.Duration) (res jobResult) {
-	sc := &scenarios[si]
+func isFatal(class string) bool {
+	return strings.HasPrefix(class, "panic:consensus") || strings.HasPrefix(class, "panic:thread") || class == "deadlock" || class == "horizon" ||
+		class == "apphash-differs" || class == "txresult-differs"
+}
+
+// explore enumerates every schedule of scenario w.sc with <= bound preemptions on world w.
+func explore(w *world, bound int, deadline time.Time) (res jobResult) {
+	sc := w.sc
 	res = jobResult{Scenario: sc.name, Bound: bound, Outcomes: map[string]int{}, OpHist: map[string]int{}}
 	t0 := time.Now()
-	w, err := newWorld(sc)
-	if err != nil {
-		res.Err = "setup: " + err.Error()
-		return
-	}
+	defer func() { res.WallS = time.Since(t0).Seconds() }()
 	// warm-up epochs (caches, lazily preprocessed packages) so that every explored execution starts structurally alike
-	for i := 0; i < 3; i++ {
+	for i := 0; i < 2; i++ {
 		x, ex, err := w.runOnce(nil, false)
 		if err != nil {
 			res.Err = err.Error()
 			return
 		}
-		if c, d, _ := w.judgeAll(x, ex); c != "" {
-			res.Violations = append(res.Violations, schedViolation{Class: c, Detail: "(default schedule) " + d, Stable: true})
-			res.Fatal = true
-			return
+		for _, f := range w.judgeAll(x, ex) {
+			if isFatal(f.class) {
+				res.Violations = append(res.Violations, schedViolation{Class: f.class, Detail: "(default schedule) " + f.detail, Stable: true})
+				res.Fatal = true
+				return
+			}
 		}
 	}
-	res.SetupS = time.Since(t0).Seconds()
-	start := time.Now()
 	seen := map[string]bool{}
 	stop := false
 	var rec func(prefix []int, parent *vs.Exec)
@@ -636,7 +751,7 @@ func runJob(si, bound int, budget time.Duration) (res jobResult) {
 		if stop {
 			return
 		}
-		if time.Since(start) > budget {
+		if time.Now().After(deadline) {
 			res.Capped = true
 			stop = true
 			return
@@ -656,19 +771,21 @@ func runJob(si, bound int, budget time.Duration) (res jobResult) {
 			for i := 0; i < len(prefix) && i < len(ex.Points) && i < len(parent.Points); i++ {
 				a, b := parent.Points[i], ex.Points[i]
 				if a.Thread != b.Thread || opKind(a.Op) != opKind(b.Op) || len(a.Enabled) != len(b.Enabled) {
-					res.Err = fmt.Sprintf("nondeterministic replay at point %d: parent %d:%s enabled=%d, replay %d:%s enabled=%d", i, a.Thread, a.Op, len(a.Enabled), b.Thread, b.Op, len(b.Enabled))
-					stop = true
-					return
+					// the same choices reached different points: the enumeration is no longer systematic below this
+					// prefix (counted; the run is then reported exhaustive:false). Never happens on the unchanged
+					// tree, where query threads read a frozen snapshot; with mutants that route queries to the live DB
+					// the number of live reads of a query depends on how tall the growing tree is.
+					res.Diverged++
+					if res.DivergedAt == "" {
+						res.DivergedAt = fmt.Sprintf("point %d: parent %d:%s enabled=%d, replay %d:%s enabled=%d", i, a.Thread, a.Op, len(a.Enabled), b.Thread, b.Op, len(b.Enabled))
+					}
+					break
 				}
 			}
 		}
 		if res.Execs == 1 {
 			for _, p := range ex.Points {
-				op := p.Op
-				if i := strings.IndexByte(op, ' '); i > 0 {
-					op = op[:i]
-				}
-				res.OpHist[fmt.Sprintf("t%d:%s", p.Thread, op)]++
+				res.OpHist[fmt.Sprintf("t%d:%s", p.Thread, opKind(p.Op))]++
 				if p.Thread == 1 {
 					res.PointsC++
 				} else if p.Thread > 1 {
@@ -676,22 +793,27 @@ func runJob(si, bound int, budget time.Duration) (res jobResult) {
 				}
 			}
 		}
-		class, detail, ok := w.judgeAll(x, ex)
+		fs := w.judgeAll(x, ex)
+		_, ok := w.judge(x)
 		res.Outcomes[ok]++
-		if class != "" {
-			fatal := strings.HasPrefix(class, "panic:consensus") || class == "deadlock" || class == "horizon" || class == "apphash-differs" || class == "txresult-differs"
-			if !seen[class] {
-				seen[class] = true
-				v := schedViolation{Class: class, Detail: detail, Schedule: append([]int{}, ex.Choices...), Stable: true}
+		for _, f := range fs {
+			fatal := isFatal(f.class)
+			if !seen[f.class] {
+				seen[f.class] = true
+				v := schedViolation{Class: f.class, Detail: f.detail, Schedule: append([]int{}, ex.Choices...), Stable: true}
 				if !fatal {
 					for k := 0; k < 2; k++ {
 						x2, ex2, err := w.runOnce(v.Schedule, true)
-						c2 := ""
+						again := false
 						if err == nil {
-							c2, _, _ = w.judgeAll(x2, ex2)
+							for _, f2 := range w.judgeAll(x2, ex2) {
+								if f2.class == f.class {
+									again = true
+								}
+							}
 							v.Trace = compressTrace(ex2.Trace)
 						}
-						if err != nil || c2 != class {
+						if !again {
 							v.Stable = false
 						}
 					}
@@ -732,23 +854,23 @@ func runJob(si, bound int, budget time.Duration) (res jobResult) {
 	return
 }
 
-func (w *world) judgeAll(x *execution, ex *vs.Exec) (class, detail, obsKey string) {
+func (w *world) judgeAll(x *execution, ex *vs.Exec) []finding {
 	if len(ex.Panics) > 0 {
 		var ks []string
 		for k, v := range ex.Panics {
 			ks = append(ks, k+": "+firstLine(fmt.Sprint(v)))
 		}
 		sort.Strings(ks)
-		_, _, ok := w.judge(x)
-		return "panic:thread", strings.Join(ks, "; "), ok
+		return []finding{{"panic:thread", strings.Join(ks, "; ")}}
 	}
 	if ex.Horizon {
-		return "horizon", "execution exceeded the point horizon; blocked=" + strings.Join(ex.Blocked, ","), ""
+		return []finding{{"horizon", "execution exceeded the point horizon; blocked=" + strings.Join(ex.Blocked, ",")}}
 	}
 	if ex.Deadlock {
-		return "deadlock", "threads blocked forever: " + strings.Join(ex.Blocked, ","), ""
+		return []finding{{"deadlock", "threads blocked forever: " + strings.Join(ex.Blocked, ",")}}
 	}
-	return w.judge(x)
+	fs, _ := w.judge(x)
+	return fs
 }
 
 // compressTrace collapses runs of identical consecutive lines ("C:Mutex.Lock x412").
@@ -772,20 +894,67 @@ func compressTrace(tr []string) []string {
 	return out
 }
 
+// worlds are shared by the scenarios of one process that use the same pruning strategy (an app start costs seconds).
+type worlds map[types.PruneStrategy]*world
+
+func (ws worlds) get(sc *scenario) (*world, error) {
+	w := ws[sc.prune]
+	if w == nil {
+		var err error
+		if w, err = newWorld(sc); err != nil {
+			return nil, err
+		}
+		ws[sc.prune] = w
+	}
+	w.sc = sc
+	return w, nil
+}
+
+func workerMain(arg string) {
+	// "<si,si,...>:<tier q|t>:<budgetSeconds>"
+	parts := strings.Split(arg, ":")
+	tier := parts[1]
+	bs, _ := strconv.Atoi(parts[2])
+	deadline := time.Now().Add(time.Duration(bs) * time.Second)
+	ws := worlds{}
+	var out []jobResult
+	for _, f := range strings.Split(parts[0], ",") {
+		si, _ := strconv.Atoi(f)
+		sc := &scenarios[si]
+		bound := sc.bound[0]
+		if tier == "t" {
+			bound = sc.bound[1]
+		}
+		w, err := ws.get(sc)
+		if err != nil {
+			out = append(out, jobResult{Scenario: sc.name, Bound: bound, Err: "setup: " + err.Error()})
+			continue
+		}
+		jr := explore(w, bound, deadline)
+		out = append(out, jr)
+		if jr.Fatal {
+			delete(ws, sc.prune) // chains out of step: start afresh for the next scenario
+		}
+	}
+	b, _ := json.Marshal(out)
+	fmt.Println("RESULT " + string(b))
+}
+
 // ---------------------------------------------------------------------------------------------
 // Free-running pass (for the -race binary): same bodies, real goroutines, real sync.
 
 func freeRun(iters int) {
+	ws := worlds{}
 	for si := range scenarios {
 		sc := &scenarios[si]
-		w, err := newWorld(sc)
+		w, err := ws.get(sc)
 		if err != nil {
 			fmt.Println("FREERUN-SETUP", err)
 			os.Exit(3)
 		}
 		for it := 0; it < iters; it++ {
 			p := w.prepare()
-			x := &execution{p: p, obs: make([][]qobs, len(sc.qs))}
+			x := &execution{p: p, obs: make([][]qobs, len(sc.qs)), units0: w.sdb.DB.NumUnits()}
 			var wg sync.WaitGroup
 			wg.Add(1)
 			go func() { defer wg.Done(); w.consensus(x) }()
@@ -795,7 +964,8 @@ func freeRun(iters int) {
 				go func() {
 					defer wg.Done()
 					// stagger so that queries overlap different phases of the two blocks
-					time.Sleep(time.Duration(it%7) * 300 * time.Microsecond)
+					time.Sleep(time.Duration(it%9) * 2 * time.Millisecond)
+					w.querier(x, i)
 					w.querier(x, i)
 				}()
 			}
@@ -803,15 +973,21 @@ func freeRun(iters int) {
 			go func() { wg.Wait(); close(done) }()
 			select {
 			case <-done:
-			case <-time.After(60 * time.Second):
+			case <-time.After(120 * time.Second):
 				fmt.Printf("FREERUN-STUCK scenario=%s\n", sc.name)
 				os.Exit(3)
 			}
-			if c, d, _ := w.judge(x); c != "" {
-				fmt.Printf("FREERUN-ORACLE scenario=%s class=%s %s\n", sc.name, c, d)
-				if strings.HasPrefix(c, "panic:consensus") || c == "apphash-differs" || c == "txresult-differs" {
-					break
-				}
+			x.unitsN = w.sdb.DB.NumUnits() - x.units0
+			w.reference(x)
+			fs, _ := w.judge(x)
+			fatal := false
+			for _, f := range fs {
+				fmt.Printf("FREERUN-ORACLE class=%s %s\n", f.class, f.detail)
+				fatal = fatal || isFatal(f.class)
+			}
+			if fatal {
+				delete(ws, sc.prune)
+				break
 			}
 		}
 	}
@@ -828,48 +1004,44 @@ func tail(s string, n int) string {
 }
 
 func main() {
-	worker := flag.String("worker", "", "internal: scenario:bound:budgetSeconds")
+	worker := flag.String("worker", "", "internal: <scenario,...>:<q|t>:<budgetSeconds>")
 	free := flag.Int("freerun", 0, "internal: free-running iterations per scenario (race binary)")
 	raceBin := flag.String("racebin", "", "path of the -race build of this harness")
 	only := flag.Int("only", -1, "run only this scenario index")
+	prof := flag.String("cpuprofile", "", "internal: CPU profile of a worker")
 	r := vk.New("exploration")
 	debug.SetGCPercent(400)
+	if *prof != "" {
+		f, _ := os.Create(*prof)
+		pprof.StartCPUProfile(f)
+		defer pprof.StopCPUProfile()
+	}
 	if *free > 0 {
 		freeRun(*free)
 		return
 	}
 	if *worker != "" {
-		var si, bound, bs int
-		fmt.Sscanf(*worker, "%d:%d:%d", &si, &bound, &bs)
-		b, _ := json.Marshal(runJob(si, bound, time.Duration(bs)*time.Second))
-		fmt.Println("RESULT " + string(b))
+		workerMain(*worker)
 		return
 	}
 	if r.ReplayIn != "" {
 		replayFile(r)
 		return
 	}
-	r.SetBudget(110*time.Second, 25*time.Minute)
-	type job struct{ si, bound int }
-	var jobs []job
-	for si, sc := range scenarios {
-		if *only >= 0 && si != *only {
-			continue
-		}
-		b := sc.bound[0]
-		if r.Thorough() {
-			b = sc.bound[1]
-		}
-		jobs = append(jobs, job{si, b})
+	r.SetBudget(240*time.Second, 25*time.Minute)
+	// scenarios are spread over a few worker processes (one exploration at a time per process; an app start is expensive)
+	groups := [][]int{{0, 4}, {1, 3}, {2}, {5, 6}}
+	if *only >= 0 {
+		groups = [][]int{{*only}}
 	}
 	// the race pass runs concurrently with the schedule workers
 	raceNote := "race pass not run (no -race binary)"
 	raceDone := make(chan struct{})
 	var raceOut string
 	var raceErr error
-	if *raceBin != "" {
+	if *raceBin != "" && *only < 0 {
 		go func() {
-			cmd := exec.Command(*raceBin, "-id", r.ID, "-freerun", map[bool]string{true: "40", false: "400"}[r.Quick()])
+			cmd := exec.Command(*raceBin, "-id", r.ID, "-freerun", map[bool]string{true: "12", false: "150"}[r.Quick()])
 			cmd.Env = append(os.Environ(), "GORACE=halt_on_error=0")
 			out, err := cmd.CombinedOutput()
 			raceOut, raceErr = string(out), err
@@ -878,89 +1050,126 @@ func main() {
 	} else {
 		close(raceDone)
 	}
-	perJob := int(r.Budget.Seconds() * 0.8)
-	results := make([]jobResult, len(jobs))
+	perJob := int(r.Budget.Seconds() * 0.85)
+	results := make([][]jobResult, len(groups))
+	errs := make([]string, len(groups))
 	var wg sync.WaitGroup
-	for i := range jobs {
+	for i := range groups {
 		wg.Add(1)
 		go func(i int) {
 			defer wg.Done()
-			cmd := exec.Command(os.Args[0], "-id", r.ID, "-worker", fmt.Sprintf("%d:%d:%d", jobs[i].si, jobs[i].bound, perJob))
-			cmd.Env = append(os.Environ(), "GOMAXPROCS=2")
+			var ids []string
+			for _, si := range groups[i] {
+				ids = append(ids, strconv.Itoa(si))
+			}
+			cmd := exec.Command(os.Args[0], "-id", r.ID, "-worker", fmt.Sprintf("%s:%s:%d", strings.Join(ids, ","), map[bool]string{true: "q", false: "t"}[r.Quick()], perJob))
+			cmd.Env = append(os.Environ(), "GOMAXPROCS=3")
 			out, err := cmd.CombinedOutput()
-			var jr jobResult
 			ok := false
 			for _, line := range strings.Split(string(out), "\n") {
 				if strings.HasPrefix(line, "RESULT ") {
-					ok = json.Unmarshal([]byte(line[7:]), &jr) == nil
+					ok = json.Unmarshal([]byte(line[7:]), &results[i]) == nil
 				}
 			}
 			if !ok {
-				jr = jobResult{Scenario: scenarios[jobs[i].si].name, Bound: jobs[i].bound, Err: fmt.Sprintf("worker failed: %v: %s", err, tail(string(out), 1500))}
+				errs[i] = fmt.Sprintf("worker %v failed: %v: %s", groups[i], err, tail(string(out), 1500))
 			}
-			results[i] = jr
 		}(i)
 	}
 	wg.Wait()
 	var per []map[string]any
 	total := 0
-	for _, jr := range results {
-		if jr.Err != "" {
-			r.HarnessError("scenario %q bound %d: %s", jr.Scenario, jr.Bound, jr.Err)
+	for i := range groups {
+		if errs[i] != "" {
+			r.HarnessError("%s", errs[i])
 		}
-		total += jr.Execs
-		r.EvalN(int64(jr.Execs))
-		if jr.Capped {
-			r.MarkCapped()
-		}
-		for o := range jr.Outcomes {
-			r.Distinct(jr.Scenario + "|" + o)
-		}
-		r.OutcomeN(fmt.Sprintf("schedules bound=%d", jr.Bound), int64(jr.Execs))
-		var top []string
-		for o, n := range jr.Outcomes {
-			top = append(top, fmt.Sprintf("%6d x %s", n, o))
-		}
-		sort.Strings(top)
-		if len(top) > 10 {
-			top = top[len(top)-10:]
-		}
-		per = append(per, map[string]any{"scenario": jr.Scenario, "preemption_bound": jr.Bound, "schedules": jr.Execs, "max_points": jr.MaxPoints,
-			"points_consensus_thread": jr.PointsC, "points_query_threads": jr.PointsQ, "point_kinds(default schedule)": jr.OpHist,
-			"distinct_observations": len(jr.Outcomes), "capped": jr.Capped, "most_frequent_observations": top, "setup_s": jr.SetupS})
-		for _, v := range jr.Violations {
-			if !v.Stable {
-				r.HarnessError("unstable violation (same schedule did not fail again): %s %s: %s", jr.Scenario, v.Class, v.Detail)
+		for _, jr := range results[i] {
+			if jr.Err != "" {
+				r.HarnessError("scenario %q bound %d: %s", jr.Scenario, jr.Bound, jr.Err)
 			}
-			r.Violation(fmt.Sprintf("%s:%s", jr.Scenario, v.Class), map[string]any{"scenario": jr.Scenario, "bound": jr.Bound, "class": v.Class, "detail": v.Detail, "schedule": v.Schedule, "trace": v.Trace})
-		}
-		if len(jr.Sample) > 0 {
-			r.Sample(map[string]any{"scenario": jr.Scenario, "default_schedule_trace": jr.Sample})
+			total += jr.Execs
+			r.EvalN(int64(jr.Execs))
+			if jr.Capped || jr.Diverged > 0 {
+				r.MarkCapped()
+			}
+			for o := range jr.Outcomes {
+				r.Distinct(jr.Scenario + "|" + o)
+			}
+			r.OutcomeN(fmt.Sprintf("schedules bound=%d", jr.Bound), int64(jr.Execs))
+			var top []string
+			for o, n := range jr.Outcomes {
+				top = append(top, fmt.Sprintf("%6d x %s", n, o))
+			}
+			sort.Strings(top)
+			if len(top) > 10 {
+				top = top[len(top)-10:]
+			}
+			per = append(per, map[string]any{"scenario": jr.Scenario, "preemption_bound": jr.Bound, "schedules": jr.Execs, "max_points": jr.MaxPoints,
+				"points_consensus_thread": jr.PointsC, "points_query_threads": jr.PointsQ, "point_kinds(default schedule)": jr.OpHist,
+				"distinct_observations": len(jr.Outcomes), "capped": jr.Capped, "most_frequent_observations": top,
+				"replay_divergences": jr.Diverged, "first_divergence": jr.DivergedAt})
+			for _, v := range jr.Violations {
+				if !v.Stable {
+					r.HarnessError("unstable violation (same schedule did not fail again): %s %s: %s", jr.Scenario, v.Class, v.Detail)
+				}
+				// query-answer classes are keyed by class:query only (the same defect shows up in several scenarios)
+				key := v.Class
+				if isFatal(v.Class) {
+					key = jr.Scenario + ":" + v.Class
+				} else if strings.HasPrefix(jr.Scenario, "prune-everything") {
+					key += "@prune-everything"
+				}
+				r.Violation(key, map[string]any{"scenario": jr.Scenario, "bound": jr.Bound, "class": v.Class, "detail": v.Detail, "schedule": v.Schedule, "trace": v.Trace})
+			}
+			if len(jr.Sample) > 0 {
+				r.Sample(map[string]any{"scenario": jr.Scenario, "default_schedule_trace": jr.Sample})
+			}
 		}
 	}
 	<-raceDone
-	if *raceBin != "" {
+	if *raceBin != "" && *only < 0 {
 		s := raceOut
-		switch {
-		case strings.Contains(s, "DATA RACE"):
-			r.Violation("data-race:"+raceKey(s), map[string]any{"output": tail(s, 6000)})
+		if strings.Contains(s, "DATA RACE") {
+			r.Violation("data-race:"+raceKey(s), map[string]any{"output": tail(s, 8000)})
 			raceNote = "DATA RACE reported"
-		case strings.Contains(s, "FREERUN-STUCK"), strings.Contains(s, "FREERUN-ORACLE"):
-			r.Violation("freerun:"+clip(firstLine(s[strings.Index(s, "FREERUN-"):]), 120), map[string]any{"output": tail(s, 4000)})
-			raceNote = "free-running oracle failure"
+		}
+		switch {
+		case strings.Contains(s, "FREERUN-STUCK"):
+			r.Violation("freerun:stuck", map[string]any{"output": tail(s, 4000)})
+			raceNote += "; free-running pass stuck"
 		case raceErr != nil || !strings.Contains(s, "FREERUN-OK"):
-			r.HarnessError("race pass failed: %v %s", raceErr, tail(s, 800))
+			if !strings.Contains(s, "DATA RACE") {
+				r.HarnessError("race pass failed: %v %s", raceErr, tail(s, 800))
+			}
 		default:
-			raceNote = "free-running -race pass of the same bodies (all scenarios): no race, no oracle failure"
+			n := strings.Count(s, "FREERUN-ORACLE")
+			cls := map[string]bool{}
+			for _, l := range strings.Split(s, "\n") {
+				if strings.HasPrefix(l, "FREERUN-ORACLE class=") {
+					cls[strings.Fields(l[len("FREERUN-ORACLE class="):])[0]] = true
+				}
+			}
+			var cl []string
+			for c := range cls {
+				cl = append(cl, c)
+			}
+			sort.Strings(cl)
+			if !strings.Contains(s, "DATA RACE") {
+				raceNote = "free-running -race pass of the same bodies (all scenarios): no data race reported"
+			}
+			if n > 0 {
+				// timing-dependent: informational only (the controlled enumeration decides)
+				raceNote += fmt.Sprintf("; oracle classes also seen free-running (informational, timing dependent): %v", cl)
+			}
 		}
 	}
 	r.Assumptions = []string{
 		"scheduling points: every physical DB write unit (crashdb hook), DB.NewSnapshot, live-DB reads performed by query threads, and every sync/atomic operation of the import-rewritten files (coverage.hooked_files); code between points runs atomically",
-		"NOT scheduling points: live-DB reads by the consensus thread (query threads never write the DB, so these are independent of all their operations), reads of frozen memdb snapshots, channel operations, and the real mutexes/pools inside memdb, db.BatchCollector, hashicorp-lru, ristretto, sync.Pool/sync.Map/OnceValue users in gnovm (machine pool, pkgID cache, amino type cache) and gnolang/internal/txlog — those are exercised by the free-running -race pass only",
+		"NOT scheduling points: live-DB reads by the consensus thread (query threads never write the DB, so these are independent of all their operations), reads of frozen memdb snapshots, channel operations, and the real mutexes/pools inside memdb, db.BatchCollector, store/cache, hashicorp-lru, ristretto, sync.Pool/sync.Map/OnceValue users in gnovm (machine pool, pkgID cache, amino type cache) and gnolang/internal/txlog — those are exercised by the free-running -race pass only",
 		"memdb's snapshot (map copy under its mutex) stands in for pebble's; the wrapper makes a closed snapshot panic on use like pebble",
-		"the chain keeps growing across executions (a fresh app per schedule costs 0.3 s); every replay is checked to hit the same points as its parent, and a query-free twin application executing the same tx bytes provides the per-height reference answers",
+		"the chain keeps growing across executions (a fresh app per schedule would cost seconds); every replay is checked to hit the same points as its parent, and a query-free twin application executing the same tx bytes provides the per-height reference answers",
 	}
-	r.Finish("every schedule with <= bound preemptions per scenario; distinct = distinct (scenario, vector of query observations)",
+	r.Finish("every schedule with <= bound preemptions per scenario; distinct = distinct (scenario, vector of query observations relative to the epoch height)",
 		true, map[string]any{"schedules": total, "per_scenario": per, "race_pass": raceNote})
 }
 
@@ -986,6 +1195,7 @@ func replayFile(r *vk.Run) {
 	var f struct {
 		Detail struct {
 			Scenario string `json:"scenario"`
+			Class    string `json:"class"`
 			Schedule []int  `json:"schedule"`
 		} `json:"detail"`
 	}
@@ -999,16 +1209,22 @@ func replayFile(r *vk.Run) {
 		if err != nil {
 			r.HarnessError("%v", err)
 		}
-		for i := 0; i < 3; i++ {
+		for i := 0; i < 2; i++ {
 			w.runOnce(nil, false)
 		}
 		x, ex, err := w.runOnce(f.Detail.Schedule, true)
 		if err != nil {
 			r.HarnessError("%v", err)
 		}
-		c, d, o := w.judgeAll(x, ex)
-		fmt.Printf("scenario %q\ntrace:\n  %s\nobservations: %s\nresult: class=%q %s\n", sc.name, strings.Join(compressTrace(ex.Trace), "\n  "), o, c, d)
-		if c != "" {
+		fs := w.judgeAll(x, ex)
+		_, o := w.judge(x)
+		fmt.Printf("scenario %q\ntrace:\n  %s\nobservations: %s\n", sc.name, strings.Join(compressTrace(ex.Trace), "\n  "), o)
+		hit := false
+		for _, fd := range fs {
+			fmt.Printf("finding: %s: %s\n", fd.class, fd.detail)
+			hit = hit || fd.class == f.Detail.Class
+		}
+		if hit {
 			fmt.Printf("VIOLATION property=%s replay=%s\n", r.ID, r.ReplayIn)
 			os.Exit(1)
 		}
